@@ -394,3 +394,89 @@ def pick_order_seam():
                 return self.orig_reorder(bdd, dict(self.target))
             return Seam._reorder(self, bdd, *a, **kw)
     return PickOrder()
+
+
+class Decoy:
+    """A SECOND manager (dd.bdd and dd.autoref) living in the same process as the one under
+    test, with the same variable names in another order, poked between the cases of a sweep:
+    state that the library shares between managers (module-level tables, singletons, class
+    attributes) shows up as a wrong answer in one of the two.  The decoy's own answers are
+    checked against the model as well."""
+
+    def __init__(self, names, twin_of=None):
+        self.names = tuple(names)
+        self.U = Universe(self.names)
+        self.m = S.new_bdd({v: i for i, v in enumerate(reversed(self.names))})
+        self.b = Builder(self.m, self.U)
+        self.a = S.new_autoref({v: i for i, v in enumerate(self.names[1:] + self.names[:1])})
+        self.k = 0
+        # a `copy.copy` of the manager under test: from now on an independent manager, whose
+        # operations must not be felt by the original (nor the other way round)
+        self.twin = None
+        if twin_of is not None:
+            import copy
+            try:
+                self.twin = copy.copy(O.raw(twin_of))
+                self.twin_names = [v for v in self.names if v in self.twin.vars]
+            except Exception:  # noqa
+                self.twin = None
+
+    def _poke_twin(self):
+        t, U, k = self.twin, self.U, self.k
+        ns = self.twin_names
+        if len(ns) < 2:
+            return None
+        x, y = ns[k % len(ns)], ns[(k + 1) % len(ns)]
+        z = ns[(k + 2) % len(ns)]
+        fx, fy, fz = U.var(x), U.var(y), U.var(z)
+        den = O.Den(t, U)
+        u = t.ite(t.var(x), -t.var(y), t.var(z)) if k % 2 else t.apply(
+            ('or', 'xor', '<=>')[k % 3], -t.var(x), t.apply('and', t.var(y), -t.var(z)))
+        want = U.ite(fx, U.full ^ fy, fz) if k % 2 else (
+            ((U.full ^ fx) | (fy & (U.full ^ fz))), ((U.full ^ fx) ^ (fy & (U.full ^ fz))),
+            U.full ^ ((U.full ^ fx) ^ (fy & (U.full ^ fz))))[k % 3]
+        if den(u) != want:
+            return 'an operation in a copy.copy() of the manager gives a wrong function'
+        return None
+
+    def poke(self):
+        """-> None, or a description of what went wrong in the decoy."""
+        U, m, names = self.U, self.m, self.names
+        self.k += 1
+        k = self.k
+        x, y = names[k % len(names)], names[(k + 1) % len(names)]
+        fx, fy = U.var(x), U.var(y)
+        try:
+            if self.twin is not None:
+                bad = self._poke_twin()
+                if bad:
+                    return bad
+            den = O.Den(m, U)
+            u = m.apply(('and', 'xor', 'or', '=>')[k % 4], m.var(x), -m.var(y))
+            want = (fx & (U.full ^ fy), fx ^ (U.full ^ fy), fx | (U.full ^ fy),
+                    (U.full ^ fx) | (U.full ^ fy))[k % 4]
+            if den(u) != want:
+                return 'apply in a second manager of the same process gives a wrong function'
+            if den(m.let({x: y}, u)) != U.rename(want, {x: y}) and x != y and \
+                    y not in U.support(want) - {y}:
+                pass
+            if den(m.exist([x], u)) != U.exists(want, [x]):
+                return 'exist in a second manager of the same process gives a wrong function'
+            if set(m.support(u)) != U.support(want) or m.count(u) != (
+                    U.count(want) >> (U.m - len(U.support(want)))):
+                return 'support / count in a second manager of the same process are wrong'
+            e = self.a.add_expr('%s %s ~ %s' % (x, ('/\\', '#', '\\/', '=>')[k % 4], y))
+            if O.Den(self.a, U)(e) != want:
+                return 'add_expr in a second manager of the same process gives a wrong function'
+            t = self.a.to_expr(e)
+            if O.Den(self.a, U)(self.a.add_expr(t)) != want:
+                return 'to_expr in a second manager of the same process is wrong'
+            del e
+            if k % 16 == 0:
+                m.collect_garbage()
+                self.a.collect_garbage()
+        except Violation as v:
+            return 'second manager of the same process: ' + v.what
+        except Exception as ex:  # noqa
+            return 'second manager of the same process: raised %r' % (ex,)
+        return None
